@@ -126,6 +126,15 @@ class UInterp(mirsym.Interp):
             return cont(st, Opaque('unit'))
         if n.endswith('mem::forget'):
             return cont(st, Opaque('unit'))
+        if n.endswith('mem::replace'):
+            old = copy.deepcopy(st.load(args[0]))
+            st.store(args[0], args[1])
+            return cont(st, old)
+        if n.endswith('mem::swap'):
+            a, b = copy.deepcopy(st.load(args[0])), copy.deepcopy(st.load(args[1]))
+            st.store(args[0], b)
+            st.store(args[1], a)
+            return cont(st, Opaque('unit'))
         if n.endswith('process::abort') or n == 'abort':
             raise PathEnd('abort')
         if n == 'thin_to_thick':
